@@ -54,6 +54,9 @@ CHECKS = {
  "C17": ("bounded-exhaustive enumeration of schemas (C13 accepting side) x introspection selections (full __schema in 3 includeDeprecated modes; __type for every name and an unknown name, literal and variable) x application strategies (reflection, Resolver, installed root resolver) on the real resolver against an independent reference computed from the abstract schema",
          "Every (schema, strategy, query) in the bound is executed and compared field by field with refintrospect; answers must also agree across strategies since each is compared with the same reference.",
          "Wrapper types: only kind and ofType demanded; string defaults may be reported raw (pinned); default deprecation reason with or without embedded quotes.", "5.17"),
+ "C19": ("explicit-state breadth-first search of the subscription registry through the real API: all canonical registry states with <= 2 live subscriptions over the full alphabet and <= 3 over a reduced one (thorough 3 / 4), every operation from every state (successor = shortest-path replay on a fresh root + 1 operation), compared with a reference registry on every transition; all unmerged histories of length 4 (thorough 5) with a probe publish as cross-check of the state merge",
+         "Every (state, operation) transition in the bound is executed on the real root: deliveries (who, what message, in which order), returned counts, removal and exactly-once clean-up, silence after unsubscribe.",
+         "Canonical state = ordered list of (selection, id, kind, remaining failure script), justified because the implementation's only registry state is that slice; matching semantics are the harness subscriber's.", "5.19"),
 }
 
 NOT_YET = {}
